@@ -70,7 +70,12 @@ def make_contexts(m, rng, k):
                 term = o['type'] == 'str' and o['term']
                 cap = size - 1 if term else size
                 L = {'empty': 0, 'near': max(cap - 1, 0), 'full': cap, 'mid': rng.randint(0, cap)}[fill]
-                buf = [rng.choice(alpha) for _ in range(L)] + [0] * (size - L)
+                # behind the contents of a string: bytes as an earlier, longer value leaves them (never zero, no use of rng; the
+                # terminator of a terminated string stays in place) - a bounds-checked s[i] must not let them through
+                rest = [0] * (size - L)
+                if o['type'] == 'str':
+                    rest = [0 if (term and i == 0) else 1 + (37 * (i + j + L)) % 255 for i in range(size - L)]
+                buf = [rng.choice(alpha) for _ in range(L)] + rest
                 cmds.append('B %s %d %s' % (n, L, bytes(buf).hex()))
         ctxs.append(cmds)
     return ctxs
